@@ -36,8 +36,8 @@ LINES = [
 ]
 STABLE = [
     "r0\t50\t0\t10\t+\tchr1\t30\t2\t12\t9\t10\t60\ttp:A:P\tcg:Z:5=1X4=\n",
-    "r1\t50\t0\t10\t+\t<chr1:10-25<hapA:100-104\t19\t0\t10\t10\t10\t0\ttp:A:S\tcg:Z:10=\n",
-    "r2\t50\t3\t13\t+\t>hapA:110-120\t10\t0\t10\t8\t10\t60\tcg:Z:10=\n",
+    "r1\t50\t0\t10\t+\t<chr1:10-25<hap-A.1:100-104\t19\t0\t10\t10\t10\t0\ttp:A:S\tcg:Z:10=\n",
+    "r2\t50\t3\t13\t+\t>hap-A.1:110-120\t10\t0\t10\t8\t10\t60\tcg:Z:10=\n",
 ]
 BONO = {"s0": (0, 0), "s1": (2, 0), "s2": (4, 0), "a0": (1, 1), "a1": (3, 1), "b0": (3, 2)}
 
@@ -335,8 +335,11 @@ def replay(params, model, wd):
     tagged = cons == "sort" or params["kind"] == "gaf"
     gfa = os.path.join(wd, "x.gfa")
     open(gfa, "w").write("".join(gfa_lines(tagged=tagged, seq=seq)))
-    with gzip.open(gfa + ".gz", "wt") as fh:
-        fh.write("".join(gfa_lines(tagged=tagged, seq=seq)))
+    # the compressed copy is a gzip file of two members (what bgzip, pigz or `cat a.gz b.gz` produce): still one gzip stream
+    gl = gfa_lines(tagged=tagged, seq=seq)
+    with open(gfa + ".gz", "wb") as fh:
+        fh.write(gzip.compress("".join(gl[:len(gl) // 2]).encode()))
+        fh.write(gzip.compress("".join(gl[len(gl) // 2:]).encode()))
     lines = STABLE if cons == "index-stable" else LINES
     gaf = os.path.join(wd, "p.gaf")
     open(gaf, "w").write("".join(lines))
